@@ -8,6 +8,11 @@ HERE = os.path.dirname(os.path.dirname(os.path.abspath(__file__)))
 TECH = ("contract-based deductive verification: sidecar pre/postconditions, loop invariants, frame and ghost clauses on the real "
         "functions; verification conditions generated from /repo's AST on every run (pyvc) and discharged by z3 (cvc5 for z3's unknowns)")
 
+TECH_B = ("bounded stand-in of contract-based verification: the contract clauses are evaluated at run time on the real functions over an "
+          "exhaustively enumerated small scope with independent oracles; no deductive obligation discharged yet for this property")
+TECH_PB = TECH + "; clauses outside the verifier's reach by the bounded run-time-contract stand-in"
+TECHNIQUE = {}
+
 # property -> (category, what is proved, trusted base / what is only bounded, DESIGN section)
 CLAIMED = {}
 
@@ -36,7 +41,7 @@ for pid in sorted(CLAIMED):
         engine="pyvc",
         level_claimed=dict(category=cat, text=text, design_ref=ref),
         level_note=note,
-        technique=TECH,
+        technique=TECHNIQUE.get(pid, TECH_PB),
     ))
 ALL = [f"C{i:02d}" for i in range(1, 21)]
 nas = [dict(property_id=p, reason=NOT_YET.get(p, "no check registered yet")) for p in ALL if p not in CLAIMED]
